@@ -7,6 +7,43 @@ TB = ('Trusted base: rustc MIR construction and layout; tools/mirfacts exporter;
       '(intervals x known-bits, self-tested against Python integers); reference tables in gbsa/. ')
 
 CHECKS = {
+ 'C03': dict(
+    technique='def-use / control-dependence analysis of the cache key through the resolved call graph (closures followed), jit configuration',
+    text='Decides tag coherence: for every PC in the switchable ROM window and every controller type, the bank component '
+         'of the key used by BTreeMap::get (lookup) and BTreeMap::insert (translation) depends - by data or control '
+         'dependence within the same run_code_block activation - on the bank the controller maps now; lookup and insert '
+         'use the same injective key; translation reads the same bytes the interpreter fetches; only ROM is cached and '
+         'only under the can_dynarec guard; a block does not extend past the region its key belongs to. The "any '
+         'history" quantifier is discharged structurally: the key either depends on the live bank on every path or not.',
+    note=TB + 'BTreeMap get/insert keyed by the passed u32 (std contract). Loops summarised by field-sensitive havoc.',
+    ref='DESIGN.md#c03'),
+ 'C07': dict(
+    technique='exhaustive path enumeration of Core::handle_interrupt with known-bits path conditions',
+    text='Decides for all IF/IE values, master-enable states and stack pointers: wake-up before any IME test; no effect '
+         'but run_state when IME is off; the dispatch path clears IME, pushes PC high then low at SP-1/SP-2 (mod 2^16, SP '
+         'stays 16-bit), re-samples the pending set between the pushes (bus write modelled as a field-sensitive havoc of '
+         'MemoryAreas), charges 5 cycles; the priority ladder and cleared bit per vector (known bits of the re-sampled '
+         'set on each path), the cancelled case; IF/IE are 5-bit by field invariant; handle_interrupt is the last effect '
+         'of every step function and has no other caller. Both configurations.',
+    note=TB + 'Registers.cycles assumed far below 2^32 (drained every step).',
+    ref='DESIGN.md#c07'),
+ 'C08': dict(
+    technique='extraction of the complete one-step (IME x status) transition relation of Core::run_interp',
+    text='Decides the EI-delay / DI / RETI / HALT / STOP behaviour for all instruction sequences by extracting the '
+         'complete transition relation (3 IME states x 7 status classes) of the instruction-stepping function and '
+         'comparing it with the reference relation; plus: status constants distinct, only handle_interrupt loads vectors '
+         'or clears IF, the suspended arm of update ticks exactly 4 clocks and executes nothing, run_state := Run only in '
+         'handle_interrupt/constructors, no fetchable range yields an empty slice.',
+    note=TB + 'A sequence property of a finite deterministic machine holds for all sequences iff it holds for the relation.',
+    ref='DESIGN.md#c08'),
+ 'C09': dict(
+    technique='must-pass-through + def-use on the step functions, fan-out and who-may-call analysis, per-opcode congruence',
+    text='Decides: clocks delivered = 4 x machine cycles consumed, exactly once per completing path of every step '
+         'function, before handle_interrupt, in both configurations; the same count is handed unchanged to IO, timer and '
+         'LCD; device ticks have no other callers; every instruction charges a positive multiple of 4 clocks in both '
+         'engines and every delivered count is a multiple of 4. run_frame termination is NOT decided (premises only).',
+    note=TB + 'Liveness of run_frame argued on paper from rules 2, 6 and C14.',
+    ref='DESIGN.md#c09'),
  'C10': dict(
     technique='address-ladder partition extraction by path-sensitive abstract interpretation (intervals, known bits, affine equality)',
     text='Decides over all 65536 addresses (by intervals), for every controller type: the read and write ladders '
